@@ -395,20 +395,23 @@ CHECKS["C14"] = {
     "title": "Every started node is stopped exactly once, in reverse order, whatever fails",
     "level": "fault_enumeration",
     "technique": "exhaustive fault injection: every single (node, phase, occurrence) fault and every ordered pair, x cleanup_on_error on/off, on "
-                 "five program shapes; a ledger of hook calls per node instance and of lifecycle-observer events decides the discipline",
+                 "thirteen program shapes (flat, nested, map_/mesh_/switch_/reduce/ordered reduce/try_except_ children); a ledger of hook calls per node instance and of lifecycle-observer events decides the discipline",
     "design_ref": "DESIGN.md 2/C14",
     "parts": [{"name": "faults", "exe": "c14_lifecycle", "sources": ["c14_lifecycle.cpp"], "shards": {"quick": 16, "thorough": 256}}],
     "rule": "programs: flat chain of 4; nested_ with two inner nodes; map_ over a dictionary with key churn (add 2, add 1, erase 1, update) feeding a "
             "reduce; switch_ with a branch change; reduce with an instrumented combiner node; try_except_ around a value sub-graph and around a SINK sub-graph "
-            "(evaluate faults inside the try_except_ child are captured, C15's subject, and are not injected). Faults: phase in {start, evaluate, stop} x occurrence "
+            "(evaluate faults inside the try_except_ child are captured, C15's subject, and are not injected); mesh_ (no cross-instance access) over the churning "
+            "dictionary; map_ over a fixed two-element list and over a grow-only dynamic list; ordered (non-associative) reduce over a contiguous "
+            "TSD[int, TS] (a new combiner generation per structural change); switch_ whose first branch holds a map_ + reduce and is selected twice "
+            "(dynamic children inside a dynamic child); nested_ inside nested_. Faults: phase in {start, evaluate, stop} x occurrence "
             "1..3 (1..5 thorough) of every instrumented node id, all singles and all ordered pairs (evaluate then stop, start then stop-in-rollback, two "
             "stops, ...), cleanup_on_error in {on, off}. Oracle from the ledger: per graph starts in increasing and stops in decreasing index order; "
             "every instance whose start completed has exactly one stop hook call, before run() returns (cleanup on, or no error) or before the "
             "executor is released (cleanup off); no evaluate before start completed or after stop; an instance whose start failed is not stopped; a "
             "throwing stop does not prevent the others; run() throws iff a fault fired, carrying the FIRST fault's message and a node[...] identity. "
             "non-trivial = at least one fault fired.",
-    "bounds": {"quick": "occurrences 1..3, singles + ordered pairs, 5 programs x 2 cleanup settings", "thorough": "occurrences 1..5"},
-    "min_counters": {"quick": {"nontrivial": 5000, "faults.cases_m": 500}},
+    "bounds": {"quick": "occurrences 1..3 (stop occurrences 1..8 for the reduce programs, so the shutdown stops behind the mid-run generations are reached), singles + ordered pairs, 13 programs x 2 cleanup settings", "thorough": "occurrences 1..5"},
+    "min_counters": {"quick": {"nontrivial": 5000, "faults.cases_m": 500, "faults.cases_M": 500, "faults.cases_d": 500, "faults.cases_o": 100, "faults.cases_w": 500}},
     "assumptions": COMMON_ASSUMPTIONS + ["request_stop from another thread is C17's subject.", "Instances are identified by node storage address within one executor; storage reuse after a stop is treated as a new instance."],
     "level_text": "Complete enumeration of single and double faults over the instrumented node set of each program.",
     "level_note": "Trusted: the ledger analysis in harness/c14_lifecycle.cpp; the instrumented hooks as the definition of 'started' / 'stopped'.",
